@@ -149,14 +149,32 @@ class Model:
                                   stdin=subprocess.PIPE, stdout=subprocess.PIPE, text=True, bufsize=1)
         self.calls = 0
 
+    TIMEOUT = float(os.environ.get("VERIF_MODEL_TIMEOUT", "300"))
+    SLOWLOG = os.environ.get("VERIF_MODEL_SLOWLOG")
+
     def call(self, *parts):
+        import select, time
         line = " ".join(parts)
+        t0 = time.time()
         try:
             self.p.stdin.write(line + "\n")
             self.p.stdin.flush()
+            # the extracted model is total, but a list-of-Z model can be very slow on multi-megabyte inputs:
+            # never wait for ever
+            ready, _, _ = select.select([self.p.stdout], [], [], self.TIMEOUT)
+            if not ready:
+                self.p.kill()
+                self.__init__()
+                self.calls += 1
+                with open(os.path.join(VERIF, ".run", "model_timeouts.log"), "a") as f:
+                    f.write("%s  (%d bytes)\n" % (line[:200], len(line)))
+                return "error model-timeout"
             r = self.p.stdout.readline()
         except BrokenPipeError:
             r = ""
+        if self.SLOWLOG and time.time() - t0 > 5:
+            with open(self.SLOWLOG, "a") as f:
+                f.write("%.1fs %s (%d bytes)\n" % (time.time() - t0, line[:120], len(line)))
         self.calls += 1
         if not r:
             # process died (stack overflow): restart and report
